@@ -173,11 +173,155 @@ def copy_behaviour(job):
             mm = _copy_and_compare(rp, variant, workdir, rc, mo, hist, cls, blobs, opts)
             if mm:
                 res['mismatch'].append({'variant': variant, 'where': mm[0], 'detail': mm[1][:4]})
+        if opts.get('range_copy') and kind == 'file':
+            res['hist'] = hist
+            res['blob_oids'] = sorted(o for o, k in cls.items() if k == 'blob') if blobs else []
+            res['blob_dest'] = blobs or bool(opts.get('range_blob_dest'))
+            res['ranges'] = _range_copies(rp, workdir, rc, hist, cls, blobs, res['blob_dest'])
     finally:
         rp.close()
         shutil.rmtree(workdir, ignore_errors=True)
     res['actions'] = dict(actions)
     return res
+
+
+def range_starts(hist):
+    """ZRecover!RangeStarts: before everything, at every transaction, just after every transaction"""
+    return sorted({1} | {t['tid'] for t in hist} | {t['tid'] + 1 for t in hist})
+
+
+def iter_of(st, T):
+    """the iterator column of the observation table (as StorageReplayer.observe projects it)"""
+    from . import storage as sd2
+    out = []
+    for txn in st.iterator():
+        recs = tuple({'oid': u64(r.oid), 'd': cz.datum_of(r.data), 'dtxn': T.model(r.data_txn) if r.data_txn else 0} for r in txn)
+        out.append({'tid': T.model(txn.tid), 'status': txn.status, 'meta': sd2.meta_name(txn.user, txn.description, txn.extension), 'recs': recs})
+    return tuple(out)
+
+
+def _range_copies(rp, workdir, rc, hist, cls, blobs, blob_dest):
+    """dst.copyTransactionsFrom(src.iterator(start)) into a fresh FileStorage for every start of RangeStarts;
+    -> [{a, out: 'ok' | exception name, at, iter: what the destination's iterator lists, blobs: mismatches}]"""
+    from ZODB.FileStorage import FileStorage
+    from ZODB.POSException import POSKeyError
+    src = rp.st._st if isinstance(rp.st, _BlobStores) else rp.st
+    T = rp.tids
+    res = []
+    for a in range_starts(hist):
+        ddir = os.path.join(workdir, 'dst-range-%d' % a)
+        os.makedirs(ddir)
+        kw = {'blob_dir': os.path.join(ddir, 'blobs')} if blob_dest else {}
+        dest = FileStorage(os.path.join(ddir, 'Data.fs'), **kw)
+        r = {'a': a, 'out': 'ok', 'at': '', 'iter': (), 'blobs': []}
+        it = None
+        try:
+            it = src.iterator(T.real(a))
+            try:
+                dest.copyTransactionsFrom(it)
+            except Exception as ex:
+                import traceback
+                r['out'] = type(ex).__name__
+                r['at'] = traceback.extract_tb(ex.__traceback__)[-1].name
+                r['msg'] = str(ex)[:80]
+                if dest._transaction is not None:
+                    dest.tpc_abort(dest._transaction)
+            r['iter'] = iter_of(dest, T)
+            if blobs and r['out'] == 'ok':
+                for t in r['iter']:
+                    for x in t['recs']:
+                        if cls.get(x['oid']) != 'blob' or x['d']['v'] == ('gone',):
+                            continue
+                        try:
+                            src.loadBlob(p64(x['oid']), T.real(t['tid']))
+                        except POSKeyError:
+                            continue            # (blob files versus records in the source: C13)
+                        try:
+                            with open(dest.loadBlob(p64(x['oid']), T.real(t['tid'])), 'rb') as f:
+                                if f.read() != blob_bytes(x['d']):
+                                    r['blobs'].append('blob[%d][%d]: bytes differ' % (x['oid'], t['tid']))
+                        except POSKeyError:
+                            r['blobs'].append('blob[%d][%d]: no blob file in the copy of the range' % (x['oid'], t['tid']))
+        finally:
+            if it is not None and hasattr(it, 'close'):
+                it.close()
+            dest.close()
+            shutil.rmtree(ddir, ignore_errors=True)
+        res.append(r)
+    return res
+
+
+def to_tla(v):
+    """a normalised parsed TLA+ value back in TLA+ syntax"""
+    if isinstance(v, bool):
+        return 'TRUE' if v else 'FALSE'
+    if isinstance(v, int):
+        return str(v)
+    if isinstance(v, str):
+        return '"%s"' % v.replace('\\', '\\\\').replace('"', '\\"')
+    if isinstance(v, dict):
+        if not v:
+            return '<<>>'
+        if all(isinstance(k, str) for k in v):
+            return '[' + ', '.join('%s |-> %s' % (k, to_tla(x)) for k, x in v.items()) + ']'
+        return '(' + ' @@ '.join('%s :> %s' % (to_tla(k), to_tla(x)) for k, x in v.items()) + ')'
+    if isinstance(v, (tuple, list)):
+        return '<<' + ', '.join(to_tla(x) for x in v) + '>>'
+    if isinstance(v, (set, frozenset)):
+        return '{' + ', '.join(to_tla(x) for x in sorted(v, key=repr)) + '}'
+    raise TypeError('cannot render %r' % (v,))
+
+
+def printed_tuples(output, tag):
+    """values TLC printed with PrintT(<<tag, ...>>); long values are pretty-printed over several lines"""
+    from .. import tlaparse
+    lines = output.splitlines()
+    out = []
+    i = 0
+    import re
+    head = re.compile(r'^<<\s*"%s",' % tag)
+    while i < len(lines):
+        if head.match(lines[i]):
+            buf = lines[i]
+            j = i
+            while True:
+                try:
+                    out.append(tlaparse.parse_value(buf))
+                    break
+                except tlaparse.ParseError:
+                    j += 1
+                    if j >= len(lines) or j - i > 4000:
+                        raise
+                    buf += ' ' + lines[j]
+            i = j + 1
+        else:
+            i += 1
+    return out
+
+
+def evaluate_ranges(scratch, name, cases, run):
+    """cases: [(hist, blob oids, hint, noblob)] -> [{start: (outcome, iterator view)}] as TLC (ZRecoverRange) evaluates them;
+    run(spec, cfg, workdir=) -> TLCResult"""
+    from .. import tlc
+    wd = os.path.join(scratch, 'range-' + name)
+    os.makedirs(wd, exist_ok=True)
+    body = ',\n'.join('  [h |-> %s, blobs |-> %s, hint |-> %s, noblob |-> %s]' % (
+        to_tla(h), to_tla(frozenset(b)), to_tla(bool(hint)), to_tla(bool(nb))) for h, b, hint, nb in cases)
+    with open(os.path.join(wd, 'MCRangeCases.tla'), 'w') as f:
+        f.write('---- MODULE MCRangeCases ----\nEXTENDS ZRecoverRange\nTheCases == <<\n%s\n>>\n====\n' % body)
+    cfg = os.path.join(wd, 'range.cfg')
+    tlc.write_cfg(cfg, constants={'Cases': '<- TheCases'}, init='RInit', next_='RNext')
+    r = run('MCRangeCases', cfg, workdir=wd, workers=1, timeout=1500)
+    if not r.ok:
+        raise tlc.TLCError('range evaluation %s: %s\n%s' % (name, r.violation, r.output[-3000:]))
+    res = [dict() for _ in cases]
+    for v in printed_tuples(r.output, 'RC'):
+        v = norm(v)
+        res[v[1] - 1][v[2]] = (v[3], v[4])
+    for i, (c, e) in enumerate(zip(cases, res)):
+        if sorted(e) != range_starts(c[0]):
+            raise tlc.TLCError('range evaluation %s: case %d: TLC printed starts %r, expected %r' % (name, i + 1, sorted(e), range_starts(c[0])))
+    return r, res
 
 
 def _copy_and_compare(rp, variant, workdir, rc, mo, hist, cls, blobs, opts):
@@ -487,6 +631,8 @@ def parse_fs(data, tolerant=False):
             r = {'pos': p, 'oid': oid, 'tid': rtid, 'plen': plen, 'back': 0, 'dtid': None, 'ti': len(txns) + 1}
             t['items'] += [('dh.oid', p, p + 8), ('dh.tid', p + 8, p + 16), ('dh.prev', p + 16, p + 24), ('dh.tloc', p + 24, p + 32),
                            ('dh.vlen', p + 32, p + 34), ('dh.plen', p + 34, p + 42)]
+            if t['recs']:       # a record after the first of its transaction: its own item classes
+                t['items'] += [('dh2.' + n[3:], a, b) for n, a, b in t['items'][-6:]]
             if plen:
                 r['raw'] = r['data'] = data[p + 42:p + 42 + plen]
                 r['end'] = p + 42 + plen
@@ -673,27 +819,45 @@ def project_run(txns, original, dmg, damaged, events, how, outtx):
     for e in events:
         if e[0] == 'hdr':
             if e[2] in ('ok', 'undone'):
-                ev.append({'k': 'hdr', 'p': e[1], 'r': e[2], 'q': e[3], 't': tidm(e[4]), 'same': False})
+                ev.append({'k': 'hdr', 'p': e[1], 'r': e[2], 'q': e[3], 't': tidm(e[4]), 'same': False, 'whole': False})
                 cur = bystart.get(e[1])
             else:
-                ev.append({'k': 'hdr', 'p': e[1], 'r': e[2], 'q': 0, 't': 0, 'same': False})
+                ev.append({'k': 'hdr', 'p': e[1], 'r': e[2], 'q': 0, 't': 0, 'same': False, 'whole': False})
         elif e[0] == 'scan':
-            ev.append({'k': 'scan', 'p': e[1], 'r': '-', 'q': e[2], 't': 0, 'same': False})
+            ev.append({'k': 'scan', 'p': e[1], 'r': '-', 'q': e[2], 't': 0, 'same': False, 'whole': False})
         elif e[0] == 'copy':
-            same = False
+            same = whole = False
             if k < len(outtx) and cur is not None:
                 same = content(outtx[k]) == content(txns[cur])
-            srcs.append((cur, same))
+                whole = len(outtx[k]['recs']) == len(txns[cur]['recs'])
+            srcs.append((cur, same, whole))
             k += 1
-            ev.append({'k': 'copy', 'p': 0, 'r': '-', 'q': 0, 't': 0, 'same': same})
+            ev.append({'k': 'copy', 'p': 0, 'r': '-', 'q': 0, 't': 0, 'same': same, 'whole': whole})
         else:
-            ev.append({'k': e[0], 'p': 0, 'r': '-', 'q': 0, 't': 0, 'same': False})
+            ev.append({'k': e[0], 'p': 0, 'r': '-', 'q': 0, 't': 0, 'same': False, 'whole': False})
     if how.startswith('crash'):
-        ev.append({'k': 'crash', 'p': 0, 'r': '-', 'q': 0, 't': 0, 'same': False})
+        ev.append({'k': 'crash', 'p': 0, 'r': '-', 'q': 0, 't': 0, 'same': False, 'whole': False})
         how = 'end'
-    ev.append({'k': how, 'p': 0, 'r': '-', 'q': 0, 't': 0, 'same': False})
+    ev.append({'k': how, 'p': 0, 'r': '-', 'q': 0, 't': 0, 'same': False, 'whole': False})
     run = {'size': size, 'lo': lo, 'hi': hi, 'ev': ev}
     return run, srcs, k
+
+
+def _untouched_aborts(txns, run, events):
+    """aborted copies of transactions that no damaged byte touches (ZRecoverTool!HintMissing: restore raised for
+    a back-pointer record whose transaction is not in the output) - counted for the evidence"""
+    lo, hi = run['lo'], run['hi']
+    bystart = {t['s']: t for t in txns}
+    n = 0
+    cur = None
+    for e in events:
+        if e[0] == 'hdr' and e[2] == 'ok':
+            cur = bystart.get(e[1])
+        elif e[0] == 'abort' and cur is not None:
+            rngs = [(cur['s'], cur['e'])] + list(cur['deps'])
+            if not any(lo < hi and a < hi and lo < b for a, b in rngs):
+                n += 1
+    return n
 
 
 def extents(txns):
@@ -739,7 +903,8 @@ def build_source(job):
         raise RuntimeError('the harness reads the source file differently from the table TLC printed: %s' % out[:3])
     return {'data': data, 'obs': final['obs'], 'hist': final['hist'], 'consts': rc, 'sig': sig, 'ntx': len(txns),
             'backs': sum(1 for t in txns for r in t['recs'] if r['back']),
-            'zeros': sum(1 for t in txns for r in t['recs'] if not r['plen'] and not r['back']), 'packed': sum(1 for t in txns if t['status'] == 'p')}
+            'zeros': sum(1 for t in txns for r in t['recs'] if not r['plen'] and not r['back']),
+            'multi': sum(1 for t in txns if len(t['recs']) >= 2), 'packed': sum(1 for t in txns if t['status'] == 'p')}
 
 
 def recover_cases(job):
@@ -771,9 +936,10 @@ def recover_cases(job):
             outtx = []
         wall_hangs += how == 'hang' and not (events and events[-1][0] == 'scan' and events[-1][2] == -1)
         run, srcs, ncopy = project_run(txns, data, dmg, damaged, events, how, outtx)
+        hint_aborts = _untouched_aborts(txns, run, events)
         run['f'] = fidx + 1
         r = {'run': run, 'dmg': dmg, 'how': how, 'dot8': b'.' in damaged[-8:], 'nout': len(outtx), 'ncopy': ncopy, 'table': None,
-             'altered': sum(1 for s in srcs if not s[1]), 'scans': sum(1 for e in events if e[0] == 'scan')}
+             'hint_aborts': hint_aborts, 'altered': sum(1 for s in srcs if not s[1]), 'cut': sum(1 for s in srcs if not s[2]), 'scans': sum(1 for e in events if e[0] == 'scan')}
         if how == 'end' and ncopy != len(outtx):
             raise RuntimeError('recorder saw %d tpc_finish calls, the output file holds %d transactions (%r)' % (ncopy, len(outtx), dmg))
         if dmg[0] == 'none' and model is not None and how == 'end':
